@@ -1,4 +1,4 @@
-/- Driver ops for Tetris.  Ops: tetris.state, tetris.step, tetris.judge, tetris.reset, tetris.table -/
+/- Driver ops for Tetris.  Ops: tetris.state, tetris.step, tetris.judge, tetris.reset, tetris.table, tetris.instance, tetris.episode -/
 import JumanjiModel.Bridge.Json
 import JumanjiModel.Env.Tetris.Model
 import JumanjiModel.Env.Tetris.Bounds
@@ -105,6 +105,39 @@ def opReset : Op := fun j => do
   let (s, ts) := reset cfg d
   pure (jObj [("state", jState s), ("ts", jTimeStep jObs ts), ("consistent", jBool (decide (Consistent cfg s)))])
 
+/-- {"cfg", "state": a reset state} → generator certificates (C10): the advertised invariant `InstanceOK` and the
+    transliterated `reset` replayed on the draw read off the state (its piece index) -/
+def opInstance : Op := fun j => do
+  let cfg ← getCfg (← field j "cfg")
+  let s ← getState cfg (← field j "state")
+  let d := s.tetrominoIndex
+  pure (jObj [("instance_ok", jBool (decide (InstanceOK cfg s))),
+              ("empty_grid", jBool (s.gridPadded == Jx.Grid.mk (cfg.numRows + 3) (cfg.numCols + 3) 0)),
+              ("piece_is_table_entry", jBool (decide (d < 7) && s.newTetromino == pieceAt d 0)),
+              ("mask_is_legality", jBool (s.actionMask == legalMask cfg s)),
+              ("mask_nonempty", jBool (s.actionMask.any (fun r => r.any id))),
+              ("consistent", jBool (decide (Consistent cfg s))),
+              ("draw_valid", jBool (decide (validDraw d))),
+              ("reset_matches_model", jBool (decide ((reset cfg d).1 = s)))])
+
+/-- {"cfg", "state": initial state, "actions": [[rot, x, next-piece draw], …] (in-spec)} → the model's whole-episode
+    runner `play` (theorems `tetris_episode_return`, `tetris_cells_accounting`): state after the last legal step, return,
+    lines cleared by each placed piece, how it ended, and the cell counts -/
+def opEpisode : Op := fun j => do
+  let cfg ← getCfg (← field j "cfg")
+  let s ← getState cfg (← field j "state")
+  let acts ← getList (fun a => do
+    match ← getList getNat a with
+    | [r, x, d] =>
+      if r < 4 ∧ x < cfg.numCols ∧ d < 7 then pure (r, x, d) else throw "episode: action or draw out of range"
+    | _ => throw "episode: action must be [rotation, column, draw]") (← field j "actions")
+  let o := play cfg s acts
+  let e := match o.ending with | .running => "running" | .last => "last" | .illegal => "illegal"
+  pure (jObj [("final", jState o.final), ("return", jRat o.ret), ("lines", jNats o.lines), ("ending", jStr e),
+              ("cells_initial", jNat (cells cfg s.gridPadded)), ("cells_final", jNat (cells cfg o.final.gridPadded)),
+              ("line_rewards", jRats (o.lines.map lineReward)),
+              ("start_consistent", jBool (decide (Consistent cfg s)))])
+
 /-- {} → the constant tables of the model -/
 def opTable : Op := fun _ => do
   pure (jObj [("tetrominoes", jList (jList jNatGrid) tetrominoes), ("reward_list", jRats rewardList)])
@@ -117,5 +150,5 @@ def opBounds : Op := fun j => do
 def ops : List (String × Op) :=
   [("tetris.step", opStep), ("tetris.state", opState), ("tetris.judge", opJudge),
    ("tetris.reset", opReset), ("tetris.table", opTable),
-   ("tetris.bounds", opBounds)]
+   ("tetris.bounds", opBounds), ("tetris.instance", opInstance), ("tetris.episode", opEpisode)]
 end Jb.Tetris
